@@ -209,9 +209,17 @@ def forgetIndex (t : Table) (id : Nat) : M Table := do
   pure { t with idxs := t.idxs.eraseIdx id,
                 idxIdx := (t.idxIdx.erase i.name).mapVals (fun v => if v > id then v - 1 else v) }
 
+/-- remove the last bare `reference` mark from an option list -/
+def dropLastFkMark (opts : List Opt) : List Opt :=
+  match (opts.reverse.findIdx? (fun o => o.kind == .reference && !o.hasExpr)) with
+  | some k => opts.eraseIdx (opts.length - 1 - k)
+  | none => opts
+
 def forgetForeignKey (t : Table) (id : Nat) : M Table := do
   let f ← getIdx "forgetForeignKey" t.fks id
-  pure { t with fks := t.fks.eraseIdx id,
+  -- take back the mark `AddForeignKey` left on the column(s) of that name
+  let cols := t.cols.map (fun c => if c.name == f.column then { c with cur := { c.cur with opts := dropLastFkMark c.cur.opts } } else c)
+  pure { t with cols := cols, fks := t.fks.eraseIdx id,
                 fkIdx := (t.fkIdx.erase f.name).mapVals (fun v => if v > id then v - 1 else v) }
 
 /-- the index clean-up loop of `removeColumn`, from the last index down to the first (`k` = number still to visit) -/
